@@ -79,7 +79,8 @@ class Res:
         if k == 'file': return ['edit', 'touch']
         if k == 'globdir':
             old = [m for m in self.members if m not in self.fresh]
-            return ['edit-member', 'touch-member', 'add-member'] + (['rm-member'] if len(self.members) > 1 and old else [])
+            return ['edit-member', 'touch-member', 'add-member'] + (['rm-member'] if len(self.members) > 1 and old else []) + \
+                (['rename-member'] if old else [])
         if k == 'params': return ['set:' + key for key in self.vals]
         if k == 'linesfile': return [f'line:{i}' for i in (0, 2, 5, 7)] + ['touch']
         if k == 'regexfile': return [f'line:{i}' for i in (0, 1, 4, 5)] + ['touch']
@@ -109,6 +110,15 @@ class Res:
             elif op == 'add-member':
                 p = f'g{self.rid}/n{self.n}.dat'; self.members[p] = f'new {tag}\n'; sb.write(p, self.members[p]); clock.stamp(sb, p); self.fresh.add(p)
                 ev = [(d, 'add') for d, _ in self.watchers]
+            elif op == 'rename-member':
+                # a member is renamed in place: same bytes, same mtime, and a new name that keeps its position in the
+                # path-sorted member list ('.' < '_'), so the sequence of member contents is exactly what it was
+                old = [m for m in ms if m not in self.fresh]
+                p = old[self.n % len(old)]
+                q = p[:-4] + f'_r{self.n}.dat'
+                os.rename(sb.path(p), sb.path(q))
+                self.members[q] = self.members.pop(p); self.fresh.add(q)
+                ev = [(d, 'rm') for d, _ in self.watchers]
             elif op == 'rm-member':
                 old = [m for m in ms if m not in self.fresh]
                 p = old[self.n % len(old)]; del self.members[p]; os.unlink(sb.path(p))
